@@ -398,6 +398,16 @@ def gen_cases(tier, seed):
                                                         ["raw", b"PASS pa\r\n".hex(), "noreply"], ["sleep", 0.05], ["cut", "rst"]],
                                                [["connect"], ["cmd", "USER b"], ["sleep", 0.05], ["quit"]]],
                                    "offsets": [0, 0.0031]}})
+    # several wrong passwords in a row; a transfer that never gets its data connection (425) - then the session ends
+    wrongs = [["connect"], ["cmd", "USER a"], ["cmd", "PASS x1"], ["cmd", "PASS x2"], ["cmd", "PASS x3"], ["cmd", "PASS x4"], ["cmd", "USER a"],
+              ["cmd", "PASS pa"], ["quit"]]
+    noconn = [["connect"], ["cmd", "USER a"], ["cmd", "PASS pa"], ["pasv"], ["raw", b"RETR /small.txt\r\n".hex(), "noreply"], ["sleep", 1.3],
+              ["cmd", "PWD"], ["epsv"], ["raw", b"LIST /\r\n".hex(), "noreply"], ["sleep", 0.3], ["quit"]]
+    for sc in (wrongs, noconn):
+        for smax, ul in ((2, {"a": 1, "b": 1}), (None, {"a": 2})):
+            cases.append({"kind": "enum", "actions": ["rst", "fin"], "who": 0,
+                          "plan": {"seed": seed, "server_limit": smax, "ulimits": ul, "anonymous": False, "files": True,
+                                   "scripts": [sc, [["connect"], ["cmd", "USER b"], ["sleep", 0.05], ["quit"]]], "offsets": [0, 0.0031]}})
     # slow reply writer (server-wide write limit): the session ends while replies are still queued behind the throttle
     for sc in scripts + [[["connect"], ["cmd", "USER a"], ["cmd", "PASS pa"], ["quit"]]]:
         for smax, ul in ((1, {"a": 1}), (2, {"a": 1, "b": 1})):
